@@ -240,9 +240,7 @@ theorem Rep.shrink {h : H} {ring : Nat} {Q : List Nat} {f0 : Nat} {F1 : List Nat
     Rep (unlink h (move h ring (Q.length : Int)) ((n + 1 : Nat) : Int)).1 ring Q (f0 :: F1.drop (n + 1)) q := by
   rw [r.move_end]
   have hpos : ¬ (((n + 1 : Nat) : Int) ≤ 0) := by omega
-  have hu : (unlink h f0 ((n + 1 : Nat) : Int)).1 = (link h f0 (some (move h f0 (((n + 1 : Nat) : Int) + 1)))).1 := by
-    simp only [unlink, hpos, if_false]
-  rw [hu]
+  rw [unlink_fst h f0 _ hpos]
   have hsplit : F1 = F1.take (n + 1) ++ F1.drop (n + 1) := (List.take_append_drop _ _).symm
   cases hM : F1.take (n + 1) with
   | nil =>
@@ -269,16 +267,18 @@ theorem Rep.shrink {h : H} {ring : Nat} {Q : List Nat} {f0 : Nat} {F1 : List Nat
         rw [this, move_nonneg]
         exact iter_next_links f0 (m :: ms) s ys hl
       rw [hmv]
-      have hnew := link_split' hr
+      have hr' : IsRing (initNode h f0) (Q ++ f0 :: (m :: ms ++ s :: ys)) :=
+        hr.congr (by simp) (by simp) (by simp)
+      have hnew := link_split' hr'
       refine ⟨hnew, ?_, ?_, ?_⟩
       · have := r.head
         cases Q <;> simpa using this
       · rw [← r.vals]
         apply List.map_congr_left
         intro x _
-        rw [vl_link]
+        rw [vl_link, vl_initNode]
       · intro x hx
-        rw [vl_link]
+        rw [vl_link, vl_initNode]
         apply r.free
         rw [hsplit]
         rcases List.mem_cons.mp hx with rfl | hx
